@@ -407,8 +407,8 @@ func (t *taintCtx) add(fn *ssa.Function, rule, what string, pos token.Pos, sig s
 func c13Roots(c *Ctx) []*ssa.Function {
 	var roots []*ssa.Function
 	for _, m := range methodsOf(c, "packet", "Registers") {
-		if _, isPtr := m.Signature.Recv().Type().Underlying().(*types.Pointer); isPtr {
-			continue
+		if _, isPtr := m.Signature.Recv().Type().Underlying().(*types.Pointer); isPtr && storesThroughParam(m, 0) {
+			continue // the declared configuration setters
 		}
 		roots = append(roots, m)
 	}
